@@ -34,10 +34,10 @@ import numpy as np
 import vlib
 from vlib import zl
 import C02
-from C02 import size_of, to_index, ref_positions, rand_levels, nl, opt_list, flat_ints
+from C02 import size_of, to_index, ref_positions, rand_levels, nl, opt_list, flat_ints, tree_node, tree_items, make_history
 
 HEADER = '''From Coq Require Import ZArith List Bool.
-From Pymoto Require Import Base.Num Base.Cmp Model.Net Model.Hist.
+From Pymoto Require Import Base.Num Base.Cmp Model.Net Model.Hist Model.HistBuild.
 Import ListNotations.
 Definition csame (a b : list (option (list Z))) : bool := list_eqb (option_eqb Zl_eqb) a b.
 Definition L (i o : list nat) (n : list bool) (b : list (nat * nat * list (list Z))) : lin Z :=
@@ -56,6 +56,18 @@ Definition hist_case (N : nat) (dl keepl : list nat) (mods : list (hmod zmem)) (
   let x1 := run (keep_of keepl) mods hist (start dl keepl mods inputs) in
   let x2 := run (keep_of keepl) mods cyc x1 in
   hwf mods && obs_ok N x1 st1 se1 && obs_ok N x2 st2 se2.
+(* construction history: segments (modules the outer network reaches, ops applied to it while under construction),
+   observation when the construction is complete; then as hist_case *)
+Definition built_case (N : nat) (dl keepl : list nat) (mods : list (hmod zmem)) (inputs : list (list Z))
+           (segs : list (list bool * list (@op Z))) (st0 : list (list Z)) (se0 : list (option (list Z)))
+           (hist cyc : list (@op Z)) (st1 : list (list Z)) (se1 : list (option (list Z)))
+           (st2 : list (list Z)) (se2 : list (option (list Z))) : bool :=
+  let x0 := run_built (keep_of keepl) mods segs (start dl keepl mods inputs) in
+  let x1 := run (keep_of keepl) mods hist x0 in
+  let x2 := run (keep_of keepl) mods cyc x1 in
+  hwf mods && obs_ok N x0 st0 se0 && obs_ok N x1 st1 se1 && obs_ok N x2 st2 se2.
+Definition T := true.
+Definition F := false.
 '''
 
 
@@ -78,7 +90,29 @@ Definition part_case (As : list (list Z)) (obs : list (list Z)) : bool := Zll_eq
 
 
 # ============================================================================ integer-exact core
-def gen_core(rng, stats):
+BUILD_ORDERS = ['dfs', 'bfs', 'random', 'bfs-evaluated', 'dfs-evaluated', 'post']
+
+
+def visible_mods(case, attached):
+    """indices of the modules the OUTER network reaches when the members with the tree paths `attached` have been
+    appended (in the depth-first order of the partial member tree = the final order restricted to them)"""
+    out = []
+
+    def go(p):
+        for k, x in enumerate(tree_items(tree_node(case, p))):
+            c = p + (k,)
+            if c in attached:
+                if isinstance(x, int):
+                    out.append(x)
+                else:
+                    go(c)
+    go(())
+    return out
+
+
+def gen_core(rng, stats, build=None):
+    """build: None = the network is constructed in one go from the final member tree (as before) with probability 1/2,
+    otherwise by a construction history; an element of BUILD_ORDERS forces that kind of construction history"""
     sigs, sources = [], {}
 
     def new_sig(shape):
@@ -146,20 +180,32 @@ def gen_core(rng, stats):
         k = rng.randint(1, len(lst) - 1)
         return [nest(lst[:k], depth - 1)] + lst[k:] if rng.random() < 0.5 else lst[:k] + [nest(lst[k:], depth - 1)]
     tree = nest(list(range(len(mods))), 2)
+    if build is None and rng.random() < 0.5:
+        build = rng.choice(BUILD_ORDERS)
+
+    # member tree for a construction history: at least one inner network, anywhere in the member list, up to 3 deep
+    def nest2(lst, depth, force):
+        if not lst or depth == 0 or (not force and rng.random() < 0.4):
+            return list(lst)
+        a = rng.randint(0, len(lst) - 1)
+        b = rng.randint(a + 1, len(lst))
+        return list(lst[:a]) + [nest2(lst[a:b], depth - 1, False)] + nest2(lst[b:], depth - 1, False)
+    if build:
+        tree = nest2(list(range(len(mods))), 3, True)
 
     def rand_vec(s, lo=-3, hi=3):
         return [rng.randint(lo, hi) for _ in range(size_of(sigs[s]['shape']))]
 
-    def rand_ops(nops, fresh):
+    def rand_ops(nops, fresh, allow_resp=True, direct=direct):
         ops = []
         for _ in range(nops):
             r = rng.random()
             if r < 0.22:
                 s = rng.choice(sorted(sources))
                 ops.append(['set', s, rand_vec(s)]); fresh = False
-            elif r < 0.47:
+            elif r < 0.47 and allow_resp:
                 ops.append(['resp']); fresh = True
-            elif r < 0.67 and fresh:
+            elif r < 0.67 and fresh and direct:
                 s = rng.choice(direct)
                 ops.append(['seed', s, rand_vec(s, -2, 2)])
             elif r < 0.85 and fresh:
@@ -167,7 +213,37 @@ def gen_core(rng, stats):
             else:
                 ops.append(['reset'])
         return ops, fresh
+    # construction history: the order of the append() calls (members of one network in member order, any interleaving
+    # between networks: an inner network is placed in its parent empty / partly filled and extended afterwards, by modules
+    # and by further networks; detached networks are filled before they are placed), with evaluations of the partially
+    # built OUTER network in between (any ops when the modules it reaches are closed under dependencies -- then typically
+    # response; seeds; sensitivity without a reset --, otherwise input updates and reset only)
+    events = None
+    if build:
+        tcase = dict(tree=tree)
+        order = {'bfs-evaluated': 'bfs', 'dfs-evaluated': 'dfs'}.get(build, build)
+        p_ops = {'post': 0.25, 'dfs-evaluated': 0.9, 'bfs-evaluated': 0.9}.get(build, 0.45)
+        events, attached = [], set()
+        for ev in make_history(tcase, order, rng):
+            events.append(ev)
+            attached.add(tuple(ev[1]))
+            if rng.random() < p_ops:
+                vis = visible_mods(tcase, attached)
+                outs = {o for k in vis for o in mods[k]['outs']}
+                closed = all(r['sig'] in sources or r['sig'] in outs for k in vis for r in mods[k]['ins'])
+                dvis = sorted(outs | {r['sig'] for k in vis for r in mods[k]['ins'] if not r['levels']})
+                if build == 'dfs-evaluated' and closed and vis:
+                    # one design iteration whose seeds stay behind: response; seeds; sensitivity (no reset)
+                    ops = [['resp']] + [['seed', s_, rand_vec(s_, -2, 2)] for s_ in dvis if rng.random() < 0.5] + [['sens']]
+                else:
+                    ops, _ = rand_ops(rng.randint(1, 7), False, allow_resp=closed and bool(vis), direct=dvis)
+                events.append(['ops', ops])
     hist, fresh = rand_ops(rng.randint(0, 25), False)
+    if build and rng.random() < 0.6:
+        # two full cycles on the completed network: response; seeds on every directly held signal; sensitivity; reset
+        for _ in range(2):
+            hist += [['set', s_, rand_vec(s_)] for s_ in sorted(sources) if rng.random() < 0.5]
+            hist += [['resp']] + [['seed', s_, rand_vec(s_, -2, 2)] for s_ in direct if rng.random() < 0.7] + [['sens'], ['reset']]
     cyc = [['reset']]
     for s in sorted(sources):
         if rng.random() < 0.5:
@@ -178,8 +254,12 @@ def gen_core(rng, stats):
             cyc.append(['seed', s, rand_vec(s, -2, 2)])
     if rng.random() < 0.9:
         cyc.append(['sens'])
-    return dict(signals=sigs, sources={str(k): v for k, v in sources.items()}, modules=mods, tree=tree, keep=keep,
+    case = dict(signals=sigs, sources={str(k): v for k, v in sources.items()}, modules=mods, tree=tree, keep=keep,
                 hist=hist, cycle=cyc)
+    if events is not None:
+        case['build'] = events
+        case['build_kind'] = build
+    return case
 
 
 def make_cached_class(pym, LinMod):
@@ -199,7 +279,23 @@ def make_cached_class(pym, LinMod):
     return CachedLin
 
 
-def build_core(pym, classes, case, inputs=None):
+class Builder:
+    """puts the network of a case together by single append() calls, in the order of a construction history"""
+    def __init__(self, pym, case, mods):
+        self.pym, self.case, self.mods, self.nets = pym, case, mods, {(): pym.Network()}
+
+    def net(self, p):
+        if p not in self.nets:
+            self.nets[p] = self.pym.Network()
+        return self.nets[p]
+
+    def attach(self, path):
+        path = tuple(path)
+        node = tree_node(self.case, path)
+        self.net(path[:-1]).append(self.mods[node] if isinstance(node, int) else self.net(path))
+
+
+def build_core(pym, classes, case, inputs=None, construct=False):
     n = len(case['signals'])
     sigs = []
     for i in range(n):
@@ -227,6 +323,8 @@ def build_core(pym, classes, case, inputs=None):
 
     def mknet(t):
         return pym.Network(*[mods[x] if isinstance(x, int) else mknet(x) for x in t])
+    if construct:
+        return sigs, Builder(pym, case, mods)
     return sigs, mknet(case['tree'])
 
 
@@ -250,15 +348,32 @@ def observe(sigs):
 
 
 def run_core(pym, classes, case):
-    sigs, net = build_core(pym, classes, case)
-    big = 0
+    big, o0 = 0, None
+    if case.get('build') is not None:
+        sigs, bld = build_core(pym, classes, case, construct=True)
+        net = bld.net(())
+        for ev in case['build']:
+            if ev[0] == 'a':
+                bld.attach(ev[1])
+            else:
+                for op in ev[1]:
+                    apply_op(case, sigs, net, op)
+                    st, se = observe(sigs)
+                    big = max([big] + [abs(v) for a in st for v in a] + [abs(v) for a in se if a for v in a])
+        o0 = observe(sigs)
+    else:
+        sigs, net = build_core(pym, classes, case)
     for op in case['hist']:
         apply_op(case, sigs, net, op)
         st, se = observe(sigs)
         big = max([big] + [abs(v) for a in st for v in a] + [abs(v) for a in se if a for v in a])
     o1 = observe(sigs)
+    left = []
     for op in case['cycle']:
         apply_op(case, sigs, net, op)
+        if op[0] == 'reset':
+            # reset() leaves no sensitivity behind on any signal of the whole nested structure (member tree walked)
+            left += leftovers(net)
     o2 = observe(sigs)
     big = max([big] + [abs(v) for a in o2[0] for v in a] + [abs(v) for a in o2[1] if a for v in a])
     # the same cycle on a freshly constructed identical network with the current inputs
@@ -270,7 +385,7 @@ def run_core(pym, classes, case):
         if op[0] != 'reset':
             apply_op(case, fs, fnet, op)
     of = observe(fs)
-    return o1, o2, of, big
+    return o1, o2, of, big, left, o0
 
 
 def coq_ref(case, r):
@@ -310,10 +425,27 @@ def coq_ops(ops):
     return '[' + '; '.join(r) + ']'
 
 
-def coq_case(case, o1, o2):
+def coq_segments(case):
+    """the 'ops' events of the construction history with the modules the outer network reaches at that moment"""
+    segs, attached = [], set()
+    for ev in case['build']:
+        if ev[0] == 'a':
+            attached.add(tuple(ev[1]))
+        else:
+            vis = set(visible_mods(case, attached))
+            mask = '[' + '; '.join('T' if k in vis else 'F' for k in range(len(case['modules']))) + ']'
+            segs.append(f'({mask}, {coq_ops(ev[1])})')
+    return '[' + ';\n   '.join(segs) + ']'
+
+
+def coq_case(case, o1, o2, o0=None):
     n = len(case['signals'])
     dims = [size_of(s['shape']) for s in case['signals']]
     init = [case['sources'].get(str(i), []) for i in range(n)]
+    if case.get('build') is not None:
+        return (f"built_case {n} {nl(dims)} {nl(case['keep'])}\n  {coq_mods(case)}\n  {zl(init)}%Z\n  {coq_segments(case)}\n  "
+                f"{zl(o0[0])}%Z {opt_list(o0[1])}\n  {coq_ops(case['hist'])}\n  "
+                f"{coq_ops(case['cycle'])}\n  {zl(o1[0])}%Z {opt_list(o1[1])}\n  {zl(o2[0])}%Z {opt_list(o2[1])}")
     return (f"hist_case {n} {nl(dims)} {nl(case['keep'])}\n  {coq_mods(case)}\n  {zl(init)}%Z\n  {coq_ops(case['hist'])}\n  "
             f"{coq_ops(case['cycle'])}\n  {zl(o1[0])}%Z {opt_list(o1[1])}\n  {zl(o2[0])}%Z {opt_list(o2[1])}")
 
@@ -333,7 +465,7 @@ def same_up_to_none(a, b):
 # ============================================================================ library networks (purity validation)
 # recipes, seed supports, stress plans and random histories live in tools/checks/histzoo.py
 import histzoo
-from histzoo import (make_float_modules, build_lib, run_lib, run_stress, stress_plans, RECIPES, CONTROLS, canon, close,
+from histzoo import (tree_signals, leftovers, make_float_modules, build_lib, run_lib, run_stress, stress_plans, RECIPES, CONTROLS, canon, close,
                      lib_history, mat_family)
 
 
@@ -491,9 +623,11 @@ def run(ctx):
             attempts += 1
             if attempts > 4 * ngen + 100:
                 break
-            name, case = f'gen:{k}', gen_core(ctx.rng, stats)
+            # deliberate construction histories first, on every run: every kind of BUILD_ORDERS in turn
+            nforced = 120 if ctx.quick() else 900
+            name, case = f'gen:{k}', gen_core(ctx.rng, stats, build=BUILD_ORDERS[k % len(BUILD_ORDERS)] if k < nforced else None)
         try:
-            o1, o2, of, big = run_core(pym, classes, case)
+            o1, o2, of, big, left, o0 = run_core(pym, classes, case)
         except Exception as e:
             ctx.violation('impl-violates', 'Network history', 'an admissible history runs without exception', 'core network',
                           dict(name=name, case=case), expected='observations', got=repr(e)[:500])
@@ -513,13 +647,36 @@ def run(ctx):
             ctx.count('kind:' + m['kind'])
         if case['keep']:
             ctx.count('feature:keep_alloc')
+        if case.get('build') is not None:
+            ctx.count('construction:' + case.get('build_kind', 'given'))
+            att, late, evald = set(), False, False
+            for ev in case['build']:
+                if ev[0] == 'a':
+                    pth = tuple(ev[1])
+                    # a member arrives in an inner network that the outer network already reaches
+                    if len(pth) > 1 and all(pth[:j] in att for j in range(1, len(pth))):
+                        late = True
+                        if evald:
+                            ctx.count('construction:nested network extended after an evaluation')
+                    att.add(pth)
+                else:
+                    evald = True
+                    ctx.count('construction:evaluation of the partial network')
+            if late:
+                ctx.count('construction:nested network extended after it was nested')
+        else:
+            ctx.count('construction:in one go from the member tree')
         nontrivial = 'resp' in kinds and ('sens' in kinds or 'reset' in kinds)
-        checks.append(coq_case(case, o1, o2))
+        checks.append(coq_case(case, o1, o2, o0))
         labels.append(name)
         kept[name] = (case, o1, o2)
         ctx.case(json.dumps(case, sort_keys=True), nontrivial, sample=dict(case=name, ops=len(kinds), coq=checks[-1][:500]))
         # oracle: fresh network (exact; sensitivities up to None = 0)
         ctx.search_evaluations += 1
+        if left:
+            ctx.violation('impl-violates', 'Network.reset', 'reset() leaves no sensitivity behind on any signal of the member tree',
+                          'core network', dict(name=name, case=case), expected='None or zeros on every signal',
+                          got=dict(signals_with_sensitivity=left))
         if o2[0] != of[0] or not same_up_to_none(o2[1], of[1]):
             ctx.violation('impl-violates', 'Network history', 'final cycle equals a fresh network', 'core network',
                           dict(name=name, case=case), expected=dict(states=of[0], sens=of[1]), got=dict(states=o2[0], sens=o2[1]))
@@ -632,18 +789,25 @@ def run(ctx):
         for r in RECIPES:
             probe = build_lib(pym, fm, r, np.random.default_rng(0))
             nalt = max([len(v) for v in probe['alt'].values()] + [0])
-            for _ in range(sreps):
-                for focus, regs in stress_plans(6, nalt):
-                    todo_lib.append(dict(recipe=r, kind='stress', seed=int(g.integers(0, 2 ** 31)), focus=focus, regimes=list(regs)))
+            for rep in range(sreps):
+                # construction plan of the network (histzoo.PLANS): every plan at least once per recipe on every run
+                for i, (focus, regs) in enumerate(stress_plans(6, nalt)):
+                    todo_lib.append(dict(recipe=r, kind='stress', seed=int(g.integers(0, 2 ** 31)), focus=focus, regimes=list(regs),
+                                         build=histzoo.PLANS[(i + rep) % len(histzoo.PLANS)]))
         todo_lib += [dict(recipe=r, kind='random', seed=int(g.integers(0, 2 ** 31)), nops=int(g.integers(0, 26)))
                      for r in RECIPES + CONTROLS if r not in histzoo.STRESS_ONLY for _ in range(reps)]
+        gplan = np.random.default_rng(ctx.seed + 29)
+        for job in todo_lib[len(corpus_lib):]:      # (the corpus cases keep the construction they were recorded with)
+            if job.get('kind', 'random') == 'random' and 'build' not in job:
+                job['build'] = histzoo.PLANS[int(gplan.integers(1, len(histzoo.PLANS)))] if gplan.random() < 0.5 else 'flat'
     for job in todo_lib:
         recipe, kind = job['recipe'], job.get('kind', 'random')
         try:
             if kind == 'stress':
-                failed, desc = run_stress(pym, fm, recipe, job['seed'], job['focus'], tuple(job['regimes']), stats=ctx.count)
+                failed, desc = run_stress(pym, fm, recipe, job['seed'], job['focus'], tuple(job['regimes']), stats=ctx.count,
+                                           build=job.get('build', 'flat'))
             else:
-                failed, desc = run_lib(pym, fm, recipe, job['seed'], job['nops'], stats=ctx.count)
+                failed, desc = run_lib(pym, fm, recipe, job['seed'], job['nops'], stats=ctx.count, build=job.get('build', 'flat'))
         except Exception as e:
             if 'sparse' in recipe and 'eigensolve' in recipe and 'singular' in str(e):
                 # known finding K02 (C01): sparse eigenvector sensitivities factorise a singular matrix; not a C03 matter
